@@ -20,7 +20,7 @@ RULE = (
     "geometry of default-constructed fields vs the documented one. field_struct: a binary integer field of a user "
     "subclass (two levels deep) whose class-level type table adds a 1-byte integer, sizes 1/2/4: the layout clauses "
     "(Spec.C02.holdsFieldBin) and the span bytes (int.to_bytes) are evaluated on the observation — the model has no "
-    "subclass tables; a fifth of all field objects in every check are instances of a do-nothing user sub-subclass; a tenth of the cases hand integers over as integral floats or numpy scalars (the same numbers). Every third target line of the single-field cases ends in TAB / LF / CR / NBSP / VT / FF instead of a letter. 'fits' is decided by the Lean predicate "
+    "subclass tables; a fifth of all field objects in every check are instances of a do-nothing user sub-subclass; a tenth of the cases hand integers over as integral floats or numpy scalars (the same numbers). Every third target line of the single-field cases ends in TAB / LF / CR / NBSP / VT / FF instead of a letter. History: every fourth single-field case is run a second time, and a quarter of the line cases are run, on field objects that were already written before the observed write (one to three earlier writes of the SAME field object(s): onto a target of the other storage kind or of the same kind with another length, holding the identical value object / no value / an equal value assigned again; for lines through the same Line object with its storage switched by the setter or through another Line over the same field objects) — the model is asked about the observed write alone, since every write is bound by the property whatever the object served for before. 'fits' is decided by the Lean predicate "
     "Spec.C02.fits; non-fitting cases are skipped (counted under verdicts.skip). non-trivial = field size > 0 and "
     "value not None; distinct by full case."
 )
@@ -29,7 +29,7 @@ ASSUMPTIONS = [
     "binary numeric fields have size 2, 4 or 8 (the property's domain)",
 ]
 TRUSTED = []
-NOT_THEOREMS = ['character shape of float renderings outside the range of the C01 float laws (E notation for non-zero values below 10^(decimals-322); F notation is covered for every finite double): hypothesis of Props.C02.field_write_of_raw, evaluated per case; for every other admitted value it is a theorem (Props.C02.shape_dom, field_write_dom, line_write_dom)']
+NOT_THEOREMS = ['nothing within the domain: the character shape of every rendering is a theorem (Props.C02.shape_dom, field_write_dom, line_write_dom) — floats in F notation for every finite double, in E notation for every finite double in normal form (Props.C01.FloatFB, floatFB_all)']
 EXHAUSTIVE = {"quick": True, "thorough": True}
 MARK = "abcdefghijklmnopqrstuvwxyz"
 
@@ -54,12 +54,72 @@ def given(case, j, fd):
     return v
 
 
+def warm_field(f, case, v):
+    """the earlier uses of this field object (case["hist"]), then the value of the observed write in place.
+    A step writes the field onto another target line (either storage kind) holding the identical value object
+    ("same": assigned once, never re-assigned), no value ("none") or an equal value assigned again ("again").
+    What an earlier write returned or raised is of no concern here: it is a case of its own."""
+    f.value = v
+    for h in case.get("hist") or []:
+        if h["value"] == "none":
+            f.value = None
+        elif h["value"] == "again":
+            f.value = given(case, case["value"], case["field"]) if case["mode"] == "field" else codec.dec_val(case["value"])
+        try:
+            f.write(codec.dec_data(h["line"]))
+        except Exception:
+            pass
+        if h["value"] == "none":
+            f.value = v
+
+
+def warm_line(fs, case, vals):
+    """the earlier uses of the field objects of a layout (case["hist"]): whole-line writes in the storage the step
+    names, with the very same value objects ("same"), no values ("none") or equal ones built again ("again");
+    through another Line object over the same fields ("other_line") or through one Line object whose storage
+    is switched with the setter afterwards ("setter": that Line is returned for the observed write)."""
+    from cfinterface.components.line import Line
+
+    keep = None
+    for h in case.get("hist") or []:
+        if h["values"] == "none":
+            hv = [None] * len(vals)
+        elif h["values"] == "again":
+            fds = case["fields"]
+            hv = [given(case, v, fds[i] if i < len(fds) else {}) for i, v in enumerate(case["values"])][: len(vals)]
+        else:
+            hv = vals
+        try:
+            if h["how"] == "setter" and case.get("via") not in ("values_arg", "fields_setter"):
+                if keep is None:
+                    keep = Line(fs, storage=h["storage"])
+                else:
+                    keep.storage = h["storage"]
+                keep.write(hv)
+            else:
+                Line(fs, storage=h["storage"]).write(hv)
+        except Exception:
+            pass
+    return keep
+
+
+def hist_text(case):
+    hs = case.get("hist") or []
+    if not hs:
+        return ""
+    if case["mode"] == "line":
+        steps = [f"a {h['storage'] or 'default'}-storage line write ({h['how']}, values: {h['values']})" for h in hs]
+    else:
+        steps = [f"onto {show(h['line'])} (value: {h['value']})" for h in hs]
+    return " — observed on field object(s) already written before: " + "; then ".join(steps)
+
+
 def _run_impl(case):
     m = case["mode"]
     try:
         if m == "field":
             f = codec.mk_field(case["field"])
-            f.value = given(case, case["value"], case["field"])
+            warm_field(f, case, given(case, case["value"], case["field"]))
             return {"out": codec.enc_data(f.write(codec.dec_data(case["line"])))}
         if m == "field_struct":
             # a user subclass (two levels deep) that extends the class-level numeric type table
@@ -69,7 +129,7 @@ def _run_impl(case):
             mid = type("SmallInt", (IntegerField,), {"TYPES": {**IntegerField.TYPES, 1: np.int8}})
             cls = type("Flag", (mid,), {})
             f = cls(case["field"]["size"], case["field"]["start"])
-            f.value = codec.dec_val(case["value"])
+            warm_field(f, case, codec.dec_val(case["value"]))
             return {"out": codec.enc_data(f.write(codec.dec_data(case["line"])))}
         if m == "line":
             from cfinterface.components.line import Line
@@ -77,6 +137,13 @@ def _run_impl(case):
             fs = [codec.mk_field(fd) for fd in case["fields"]]
             fds = case["fields"]
             vals = [given(case, v, fds[i] if i < len(fds) else {}) for i, v in enumerate(case["values"])]
+            if case.get("nvals") is not None and case.get("via") not in ("values_arg", "fields_setter"):
+                vals = vals[: case["nvals"]]
+            ln = warm_line(fs, case, vals)
+            if ln is not None:
+                # the same Line object served another storage before; switched through the public setter
+                ln.storage = case["storage"]
+                return {"out": codec.enc_data(ln.write(vals))}
             if case.get("via") == "values_arg":
                 ln = Line(fs, values=vals, storage=case["storage"])
                 return {"out": codec.enc_data(ln.write(vals))}
@@ -90,11 +157,9 @@ def _run_impl(case):
                 ln.write(["a", "b"])
                 ln.fields = fs
                 return {"out": codec.enc_data(ln.write(vals))}
+            # with fewer values than fields (nvals) the fields without a value still belong to the layout
+            # (a line that never got a value for them holds None: blanks)
             ln = Line(fs, storage=case["storage"])
-            if case.get("nvals") is not None:
-                # fewer values than fields: the fields without a value still belong to the layout
-                # (a fresh line holds None for them: blanks)
-                return {"out": codec.enc_data(ln.write(vals[: case["nvals"]]))}
             return {"out": codec.enc_data(ln.write(vals))}
         if m == "defaults":
             from cfinterface.components.literalfield import LiteralField
@@ -155,9 +220,9 @@ def judge(case, obs, resp):
     if not resp["holds"]:
         if case["mode"] == "defaults":
             return {"status": "oracle", "why": f"default geometry is {obs.get('geometry')} {obs.get('float_format')} {obs.get('date_format')}, documented [80,0,8,0,8,0,4,16,0] F . %Y/%m/%d"}
-        return {"status": "oracle", "why": f"write produced {show(obs['out'])}; the layout discipline requires {show(resp['model'])}"}
+        return {"status": "oracle", "why": f"write produced {show(obs['out'])}; the layout discipline requires {show(resp['model'])}" + hist_text(case)}
     if not resp["agree"]:
-        return {"status": "corr", "why": f"model {show(resp['model'])} vs implementation {show(obs.get('out'))}"}
+        return {"status": "corr", "why": f"model {show(resp['model'])} vs implementation {show(obs.get('out'))}" + hist_text(case)}
     return {"status": "ok", "why": ""}
 
 
@@ -188,6 +253,7 @@ def features(case, obs):
         f.append("missing_value" if case["value"] is None else "value")
     if m == "line":
         f += [f"storage={case['storage'] or 'default'}", f"nfields={len(case['fields'])}"]
+    f.append(f"earlier_writes={len(case.get('hist') or [])}")
     return f
 
 
@@ -364,6 +430,41 @@ def ws_tail(c, i):
     return {**c, "line": {key: l[key][:-1] + [tail]}}
 
 
+def other_kind(l):
+    """the same target line in the other storage kind (str <-> bytes)"""
+    if "s" in l:
+        return {"b": [c if c < 256 else 63 for c in l["s"]]}
+    return {"s": list(l["b"])}
+
+
+def field_hist(c, i):
+    """one to three earlier writes of the same field object, chosen by the case index: the target of a step
+    is the observed target in the other storage kind, or one of the same kind with another length"""
+    rng = random.Random(i * 7919 + 11)
+    l = c["line"]
+    key = "s" if "s" in l else "b"
+    n = len(l[key])
+    mark = [ord(ch) for ch in MARK]
+    steps = []
+    for s in range(rng.choice([1, 1, 2, 3])):
+        other = rng.random() < 0.6 if s else rng.random() < 0.75
+        m = rng.choice([n, n, (n + 5) % 15, c["field"]["start"] + c["field"]["size"] + 2, 0])
+        tgt = {key: (mark + mark)[:m]}
+        steps.append({"line": other_kind(tgt) if other else tgt, "value": rng.choice(["same", "same", "same", "none", "again"])})
+    return {**c, "hist": steps}
+
+
+def line_hist(c, rng):
+    """one to three earlier whole-line writes over the same field objects, mostly in the other storage"""
+    cur = "BINARY" if c["storage"] == "BINARY" else "TEXT"
+    steps = []
+    for s in range(rng.choice([1, 1, 2, 3])):
+        other = rng.random() < 0.75
+        st = ("TEXT" if cur == "BINARY" else "BINARY") if other else cur
+        steps.append({"storage": rng.choice(["", "TEXT"]) if st == "TEXT" else "BINARY", "values": rng.choice(["same", "same", "same", "none", "again"]), "how": rng.choice(["setter", "other_line"])})
+    return {**c, "hist": steps}
+
+
 def cases_of(chunk):
     k = chunk["kind"]
     if k == "corpus":
@@ -375,20 +476,33 @@ def cases_of(chunk):
             if i % chunk["of"] == chunk["part"]:
                 if chunk["k"] == "int" and i % 5 == 0:
                     c = {**c, "int_as": ("float", "np_float", "np_int")[(i // 5) % 3]}
-                yield ws_tail(c, i)
+                c = ws_tail(c, i)
+                yield c
+                if i % 4 == 3:
+                    yield field_hist(c, i)
     elif k == "exhbin":
         for i, c in enumerate(exhaustive_field_bin(chunk["mst"], chunk["ml"])):
-            yield ws_tail(c, i)
+            c = ws_tail(c, i)
+            yield c
+            if i % 4 == 3:
+                yield field_hist(c, i)
     elif k == "rline":
         rng = random.Random(chunk["seed"])
+        hrng = random.Random(chunk["seed"] * 31 + 7)  # its own stream: the layouts stay what they were
         for _ in range(chunk["n"]):
             c = random_layout(rng, chunk["binary"])
             if rng.random() < 0.1:
                 c["int_as"] = rng.choice(["float", "np_float", "np_int"])
+            if hrng.random() < 0.25:
+                c = line_hist(c, hrng)
             yield c
 
 
 def shrinks(case):
+    hs = case.get("hist") or []
+    if len(hs) > 1:
+        for i in range(len(hs)):
+            yield {**case, "hist": hs[:i] + hs[i + 1 :]}
     if case["mode"] == "line":
         n = len(case["fields"])
         for i in range(n):
